@@ -44,6 +44,9 @@ func NewSparseConstFloat32Vector(indices []int, values []float32, n int) SparseC
   if len(indices) != len(values) {
     panic("invalid number of indices")
   }
+  // do not reorder the caller's slices
+  indices = append([]int{}, indices...)
+  values  = append([]float32{}, values...)
   sort.Sort(sortIntConstFloat32{indices, values})
   r := nilSparseConstFloat32Vector(n)
   r.indices = indices[0:0]
